@@ -93,6 +93,7 @@ Theorem sw_loop_fine c tabs e T acc word :
 Proof.
   intros Hn. induction fuel as [|fuel IH]; intros state ci log Hf; [lia|].
   rewrite sw_loop_S. destruct (Nat.leb (String.length word) ci) eqn:El; [exact I|].
+  destruct (star_first Repaired c T state); [exact I|].
   apply Nat.leb_gt in El. cbv zeta.
   pose proof (sdrop_nonempty ci word El) as Hs.
   assert (Step : forall st adv, (1 <= adv)%nat ->
